@@ -96,10 +96,10 @@ theorem readDestination_eq (E : Env) (toks : List TokV) (table : TableI) (allowM
   rw [whileP_congr _ tupleCond _ (tupleStep E)]
   rotate_left
   · intro st
-    rcases st with ⟨connBufSize, flush, ioBufSize, notPrefix, notRegex, notSub, pickle, prefix_, reconn, regex, s, spool, spoolBufSize, spoolMaxBytesPerFile, spoolSleep, spoolSyncEvery, spoolSyncPeriod, sub, t, unspoolSleep⟩
+    rcases st with ⟨connBufSize, err, flush, ioBufSize, notPrefix, notRegex, notSub, pickle, prefix_, reconn, regex, s, spool, spoolBufSize, spoolMaxBytesPerFile, spoolSleep, spoolSyncEvery, spoolSyncPeriod, sub, t, unspoolSleep⟩
     rfl
   · intro st
-    rcases st with ⟨connBufSize, flush, ioBufSize, notPrefix, notRegex, notSub, pickle, prefix_, reconn, regex, s, spool, spoolBufSize, spoolMaxBytesPerFile, spoolSleep, spoolSyncEvery, spoolSyncPeriod, sub, t, unspoolSleep⟩
+    rcases st with ⟨connBufSize, err, flush, ioBufSize, notPrefix, notRegex, notSub, pickle, prefix_, reconn, regex, s, spool, spoolBufSize, spoolMaxBytesPerFile, spoolSleep, spoolSyncEvery, spoolSyncPeriod, sub, t, unspoolSleep⟩
     simp only [tupleStep, recStep]
     generalize s.Next = p
     obtain ⟨t1, s1⟩ := p
@@ -126,7 +126,7 @@ theorem readDestination_eq (E : Env) (toks : List TokV) (table : TableI) (allowM
         show ((a.Token != toki_EOF) && (a.Token != Token.sep)) = true
         rw [hw]; decide
       obtain ⟨t', ht'⟩ := loop_eq E rest.length rest {} a (rest.length + 2) (Nat.le_refl _) (Nat.le_refl _) hc
-      have hinit : ((30000 : Int), (1000 : Int), (2000000 : Int), (default : Bytes), (default : Bytes), (default : Bytes), (default : Bool), (default : Bytes), (10000 : Int), (default : Bytes),
+      have hinit : ((30000 : Int), (default : Err), (1000 : Int), (2000000 : Int), (default : Bytes), (default : Bytes), (default : Bytes), (default : Bool), (default : Bytes), (10000 : Int), (default : Bytes),
           (⟨rest⟩ : Scanner), (default : Bool), (10000 : Int), (200 * 1024 * 1024 : Int), 500 * time_Microsecond, (10000 : Int), time_Second, (default : Bytes), a, 10 * time_Microsecond) =
           ({} : DRec).toTuple ⟨rest⟩ a := by rfl
       rw [hinit, ht']
